@@ -58,7 +58,12 @@ size_t splinetable<Alloc>::estimateMemory(const std::string& filePath,
 	std::reverse(naxes.begin(),naxes.end()); //pull necessary switcheroo
 	
 	std::vector<uint32_t> order = readOrder(fits,dim);
+	if (convolution_dimension >= (uint32_t)dim)
+		throw std::runtime_error("Convolution dimension out of range for "+filePath);
 	order[convolution_dimension] += n_convolution_knots-1;
+	
+	//count the auxiliary keywords while we are still looking at the primary header
+	uint32_t naux = countAuxKeywords(fits);
 	
 	size_t size = sizeof(splinetable<Alloc>); //main object
 	
@@ -93,9 +98,10 @@ size_t splinetable<Alloc>::estimateMemory(const std::string& filePath,
 	size += dim*sizeof(uint64_t); //naxes
 	size += dim*sizeof(uint64_t); //strides
 	
-	uint32_t naux = countAuxKeywords(fits);
 	//pessimistically assume all keys and values are maximal length
 	size += naux*(FLEN_KEYWORD+FLEN_VALUE)*sizeof(char);
+	//the array of entries, and each entry's pair of string pointers
+	size += naux*(sizeof(char_ptr_ptr)+2*sizeof(char_ptr));
 	
 	const size_t KB=1ULL<<10;
 	//round up to the nearest KB, and add one more,
